@@ -80,6 +80,42 @@ CHECKS['C03'] = dict(
     note=TB + 'Models of bs_prod (dense fixed-width path), converters (Convert.v) hand-written; NumPy/scipy are exercised, not modelled.',
     technique='Coq theorems (bilinear form, fixed-width wrap, converter inverses) + kernel-evaluated correspondence')
 
+CHECKS['C14'] = dict(
+    category='proof',
+    text=('Unbounded Coq theorems over N on the model of the run_parallel loop body: for all (inputs I, tasks M=nodes*cores >= I, '
+          'trials T >= tasks per input) the tasks of input i form a block whose trials sum to exactly T, every task gets >= 1 trial, all '
+          'divisors are >= 1, file indices are injective; the pre-fix remainder rule is refuted by a kernel-computed witness. '
+          'Correspondence: the plan (input, trials) of every task the real run_parallel would launch equals the model plan, evaluated '
+          'in the kernel for a small exhaustive grid and random large configurations.'),
+    design_ref='DESIGN.md section 5 C14',
+    note=TB + 'multiprocessing.Process, cpu_count and glob order are replaced by the driver; file-name padding is checked in Python.',
+    technique='Coq theorem (div/mod arithmetic of the task split, all I,N,C,T) + kernel-evaluated plan correspondence')
+
+CHECKS['C07'] = dict(
+    category='proof',
+    text=('Unbounded Coq theorems over Q (and R for the logarithm): the channel (1-p, p r) and every deformed channel is a probability '
+          'distribution; the deformed model assigns to sigma what the undeformed assigns to D(sigma); for EVERY variate u in [0,1) the '
+          'inverse-CDF sample is sigma iff u lies in sigma\'s interval, whose length is the probability of sigma; p=0 gives no error, '
+          'p=1 an error on every qubit; qubits are sampled independently; the BP conditional update is the conditional probability; '
+          'matching weights -ln(m/(1-m)) are strictly decreasing in the flip marginal and positive iff m < 1/2. Correspondence in the '
+          'kernel: per-qubit distributions, scripted-generator samples (variates on the cumulative boundaries), BP priors; weights '
+          'numerically.'),
+    design_ref='DESIGN.md section 5 C07',
+    note=TB + 'Real-number theorems depend on the standard library axioms of Reals (sig_not_dec, sig_forall_dec, '
+         'functional_extensionality_dep, classic). NumPy Generator is replaced by a scripted object; float rounding for non-dyadic '
+         'parameters is not modelled.',
+    technique='Coq theorems over Q/R (distribution, inverse-CDF intervals, LLR monotonicity) + kernel-evaluated exact correspondence')
+CHECKS['C18'] = dict(
+    category='proof',
+    text=('Unbounded Coq theorems over Q: error_probability is the product of per-qubit channel probabilities; the probabilities of all '
+          '4^n errors sum to 1 for every n (induction); it equals the volume of the box of variates that sampling maps to the error; '
+          'changing one qubit changes the probability by that qubit\'s likelihood ratio (Metropolis); the pre-fix Y mask is refuted. '
+          'Correspondence in the kernel: the implementation\'s probabilities of ALL 4^n errors of tiny codes (exact, dyadic parameters) '
+          'equal the model and sum to 1; log form and random errors on larger codes numerically.'),
+    design_ref='DESIGN.md section 5 C18',
+    note=TB + 'The splitting simulation itself is not run; its Metropolis ratio is exp(log p_new - log p_prev) of the checked function.',
+    technique='Coq theorems over Q (product form, normalisation by induction) + kernel-evaluated exhaustive correspondence on tiny codes')
+
 NOT_APPLICABLE = {}
 
 PENDING = ['C02', 'C03', 'C04', 'C05', 'C06', 'C07', 'C08', 'C09', 'C10', 'C11', 'C12', 'C13', 'C14', 'C15',
